@@ -19,6 +19,7 @@ PROPS = {
     'C06': {'units': ['bind'], 'kani': []},
     'C17': {'units': ['cache'], 'kani': []},
     'C10': {'units': ['sched'], 'kani': []},
+    'C18': {'units': ['dsu'], 'kani': []},
     'C12': {'units': ['bits', 'chal'], 'kani': [], 'only': {'chal': r'canonical_width'}},
     'C15': {'units': ['shape'], 'kani': []},
     'C13': {'units': ['sym'], 'kani': []},
@@ -73,7 +74,9 @@ META['C20'] = {
             'functions return a target whose value is the native formula: exp_power_of_2 = x^(2^k) (loop invariant), mul_many = product, inner_product = dot product, '
             'select, vanishing_poly_at_point_circuit = the value of the native helper vanishing_poly_at_point_native (both under contract), '
             'selectors_at_point_circuit (both PCS impls) = the four native Lagrange selector formulas of p3-commit.',
-    'note': 'Assumed (proved elsewhere or trusted): builder arithmetic contracts (value of add/sub/mul/div/mul_add/define_const under one fixed input assignment); '
+    'note': 'Unit periodic: evaluate_one / evaluate_periodic_columns_circuit return, for every column, the Horner value of the lifted coset-inverse-DFT coefficients at point^(2^(log_n - log_period)), i.e. the native '
+            'evaluate_periodic_column_at (native constants npow2 / idft / lift uninterpreted), and reject malformed columns. '
+            'Assumed (proved elsewhere or trusted): builder arithmetic contracts (value of add/sub/mul/div/mul_add/define_const under one fixed input assignment); '
             'native formulas transcribed from p3-commit 0.6.3; R11 type erasure of SC/PCS generics to a Field/PcsStub/CosetStub prelude (logged per function). '
             'Not yet under contract: compute_quotient_chunk_products, compute_quotient_evaluation, periodic evaluate_one, evaluate_polynomial, circuit_exp_by_constant.',
 }
@@ -177,7 +180,7 @@ META['C09'] = {
 NOT_APPLICABLE = {
     'C01': 'whole-verifier equivalence with the external native verifier (p3-uni-stark / p3-batch-stark): needs a relational spec of ~1.5 kLoC of dependency code across four generic traits; no per-function contract within reach expresses it. Its parts are decided under C05/C07/C08/C13/C14/C15/C20.',
 }
-for _p in ['C14', 'C18']:
+for _p in ['C14']:
     NOT_APPLICABLE.setdefault(_p, 'not reached yet: kernel designed in DESIGN.md §5 but its contracts are not built; not claimed')
 META['C13'] = {
     'technique': 'Verus contracts on the extracted real symbolic compiler (work-stack walk) and the alpha-folding loops',
@@ -225,6 +228,20 @@ META['C10'] = {
     'note': 'KERNEL: the scheduling mechanism named by the property. The statement itself (trace generation, proving and native verification succeed for every buildable circuit) spans the prover and the '
             'proof system and is not a function contract. Assumed: horner_ops_share_b_idx (iterator chain) says all listed operations read one b index; iter().any / saturating_sub / min / is_multiple_of / '
             'mem::take helper semantics; field elements opaque with decidable equality; preprocessed lane view generated from the real struct; that prep and prove call reduce_lanes_if_dummy with the same arguments is not checked.',
+}
+
+META['C18'] = {
+    'technique': 'Verus contracts on the extracted real connect union-find and the one hash-set iteration of the lowering pipeline: results proved to be functions of the container VIEWS',
+    'text': 'Deductive proof that the witness numbering obtained through the connect union-find cannot depend on hash iteration order: (1) ConnectDsu::find returns the class representative and its '
+            'two-pass path compression leaves the abstract state (representative of every id, slot table, membership set) unchanged; union merges exactly the two classes under the first id\'s root; '
+            'class_witness / alloc_witness read or create the class slot -- all of them only get/insert, so they are functions of the map views by construction of the contracts; '
+            '(2) backfill_connect_mappings, the only place of the anchored lowering code that ITERATES a hash container, is proved for EVERY enumeration order of the set (any duplicate-free sequence '
+            'with the same element set) to produce the same map: a spec function of the old map, the membership set, the representatives and the slot table. A test can only sample the orders one '
+            'process happens to produce.',
+    'note': 'KERNEL. Determinism of the whole build (emission in DAG creation order, sorted generator order, AIR order by registration, parallel trace generation, preprocessed commitment) is a property '
+            'of two runs; only per-function "result is a function of the view" statements are contracts. Not under contract: build_with_public_mapping (its HashMap -> HashMap re-keying and the sorted '
+            'generator list are order-insensitive by construction; its tag-transfer loop returns an order-dependent error only when several tags are unmapped), emit_operations, common.rs AIR ordering. '
+            'Assumed: hash-set iteration yields each member exactly once in an unspecified order; key model of the id newtypes; WitnessAllocator::alloc (Kani).',
 }
 
 NOT_APPLICABLE['C04'] = ('soundness of the STARK / LogUp / FRI argument behind "an accepted proof attests a satisfying assignment" is a cryptographic statement no per-function contract here can state; '
